@@ -1,4 +1,4 @@
 SPECIFICATION Spec
-CONSTANTS BudgetLen = 4  BudgetParallel = 4  BudgetRescale = 4  BudgetRecompose = 4  BudgetOrth = 64
+CONSTANTS BudgetLen = 4  BudgetParallel = 4  BudgetRescale = 4  BudgetRecompose = 4  BudgetOrth = 16
 POSTCONDITION Accepted
 CHECK_DEADLOCK FALSE
